@@ -784,7 +784,9 @@ where
             }
             Instruction::MStructSet(n) => {
                 let n: usize = n.into();
-                let mut field_name_value_pairs = Vec::with_capacity(n);
+                // `n` comes from the bytecode; never preallocate more than the
+                // stack could supply (two values per pair).
+                let mut field_name_value_pairs = Vec::with_capacity(n.min(self.stack.len()));
 
                 for _ in 0..n {
                     let field_val = self.ipop_value()?;
